@@ -253,6 +253,10 @@ def compare(interp, item, got, ref):
                                  (interp, item["version"], item["all"])))
         return vio
     # cli
+    if _abbreviation_refused(item, got.get("exit"), got.get("stderr", "")) or _abbreviation_refused(item, ref.get("exit"), ref.get("stderr", "")):
+        # an abbreviated long option refused with a usage message by one interpreter's argument parser
+        # (Python 2 has no allow_abbrev switch): outside the documented spellings, see engine_cli.judge
+        return vio
     for key in ("exit", "exc", "aborted"):
         if got.get(key) != ref.get(key):
             vio.append(violation(PROP, interp, "cli:%s:%s" % (key, cls),
@@ -280,9 +284,15 @@ def compare(interp, item, got, ref):
     return vio
 
 
+def _abbreviation_refused(item, exit_status, stderr_text):
+    return exit_status == 2 and "usage" in (stderr_text or "").lower() and engine_cli.decode_argv(item["argv"])["abbrev"]
+
+
 def compare_real(interp, item, got, ref):
     vio = []
     cls = item_class(item)
+    if engine_cli.decode_argv(item["argv"])["abbrev"] and 2 in (got["exit"], ref["exit"]):
+        return vio
     for key in ("exit", "stderr_empty", "stdout"):
         if got[key] != ref[key]:
             kind = key
